@@ -99,7 +99,7 @@ def _case(seed: int) -> Dict[str, Any]:
     work = tempfile.mkdtemp(prefix="hv_c19_")
     extracted: List[str] = []
     try:
-        evs = cpgen.gen_cp_events(seed, n_steps=3, n_streams=1 + seed % 3, annotations=bool(seed % 2))
+        evs = cpgen.gen_cp_events(seed, n_steps=3, n_streams=1 + seed % 3, annotations=bool(seed % 2), n_threads=2 if seed % 4 == 1 else 1)
         inp = {"seed": seed, "events": {0: evs}}
         with rt.trace_dir({0: evs}) as d:
             try:
